@@ -132,7 +132,7 @@ def run(name, spec_module, constants, invariants=(), constraints=(), properties=
       if f.endswith((".tla", ".cfg")):
         h.update(f.encode() + b"\0" + open(os.path.join(wd, f), "rb").read() + b"\0")
     h.update(" ".join(x for x in cmd if not x.startswith(wd)).encode())
-    cache_file = os.path.join(WORK, "tlc_cache", h.hexdigest() + ".json")
+    cache_file = os.path.join(os.environ.get("VERIF_TLC_CACHE_DIR", os.path.join(WORK, "tlc_cache")), h.hexdigest() + ".json")
     if os.path.exists(cache_file):
       try:
         c = json.load(open(cache_file))
